@@ -323,3 +323,29 @@ pub fn usizes(v: &Value) -> Vec<usize> {
         .map(|a| a.iter().map(|x| x.as_u64().unwrap_or(0) as usize).collect())
         .unwrap_or_default()
 }
+
+/// Reload the repository with settings whose commit timestamp is pinned to a
+/// value unique to `tick`.  jj stamps every rewritten commit with "now", Git
+/// keeps seconds only, and one repository serves many cases: without this,
+/// the same commit rebased onto the same parent twice within one second is
+/// bit-identical to the first rewrite and jj-lib refuses it ("Newly-created
+/// commit ... already exists").  That is an artefact of replaying histories
+/// at machine speed, not behaviour under test.
+pub fn reload_with_tick(test_repo: &testutils::TestRepo, tick: u64) -> Arc<ReadonlyRepo> {
+    use jj_lib::config::ConfigLayer;
+    use jj_lib::config::ConfigSource;
+    let secs = 1_000_000_000u64 + tick; // 2001-09-09 + tick seconds
+    let dt = chrono::DateTime::<chrono::Utc>::from_timestamp(secs as i64, 0).expect("valid timestamp");
+    let text = format!("debug.commit-timestamp = {}\n", dt.format("%Y-%m-%dT%H:%M:%S+00:00"));
+    let mut config = testutils::base_user_config();
+    config.add_layer(ConfigLayer::parse(ConfigSource::User, &text).expect("valid config"));
+    let settings = jj_lib::settings::UserSettings::from_config(config).expect("valid settings");
+    test_repo.env.load_repo_at_head(&settings, test_repo.repo_path())
+}
+
+/// a case that ended on jj-lib's duplicate-commit refusal (see reload_with_tick)
+pub fn is_duplicate_commit_flake(recs: &[Value]) -> bool {
+    recs.last().is_some_and(|r| {
+        r["op"] == "error" && r["msg"].as_str().is_some_and(|m| m.contains("already exists"))
+    })
+}
